@@ -11,6 +11,7 @@ import CvDriver.C10
 import CvDriver.C16
 import CvDriver.C14
 import CvDriver.C01
+import CvDriver.C06b
 open Drv
 
 structure DState where
@@ -22,14 +23,18 @@ structure DState where
   integ : IntSt := {}
   shared : SharedSt := {}
   geom : GeomSt := {}
+  ratchet : RatchetSt := {}
 
 def stepLine (s : DState) (ln : Nat) (line : String) : DState × List String :=
   let t := toks line
-  let s := { s with geom := geomObserve s.geom t }
+  let s := { s with geom := geomObserve s.geom t, ratchet := ratchetObserve s.ratchet t }
   match t with
   | [] => (s, [])
   | _ =>
     match c01 s.geom ln t with
+    | some o => (s, o)
+    | none =>
+    match c06b s.ratchet ln t with
     | some o => (s, o)
     | none =>
     match c18 ln t with
